@@ -126,9 +126,12 @@ pub fn run(prop: &str, cases: &[String]) -> RunOut {
                     (Some(Err(_)), Some(_)) => err = Some("resolution failed although the config is resolvable".into()),
                     (Some(Err(_)), None) => {}
                 }
+                // the plain conversion `AccountMeta::try_from(&config)` is for fixed-address configs only; what it does with other kinds
+                // is not resolution and not stated by the property: a note
+                let conv_note = match guarded(|| AccountMeta::try_from(&meta_of(&mb)).is_ok()) { Some(okc) if okc != (mb[0] == 0) => " | note: AccountMeta::try_from(&ExtraAccountMeta) succeeds for a config that is not a fixed address, or fails for one that is", _ => "" };
                 if matches!(mb[0], 0 | 1 | 2 | 128..=255) && (mb[0] == 0 || mb[1] != 0) { out.stats.nontrivial_case(line); out.stats.sample(line); }
                 out.stats.bump(&format!("resolve:kind{}:{}", match mb[0] { 0 => "0", 1 => "1", 2 => "2", 128..=255 => "ext", _ => "bad" }, if matches!(r, Some(Ok(_))) { "ok" } else { "err" }));
-                res_meta(&r)
+                format!("{}{}", res_meta(&r), conv_note)
             }
             "ctor" => {
                 let (s, w) = (b(t[t.len() - 2]), b(t[t.len() - 1]));
@@ -146,7 +149,12 @@ pub fn run(prop: &str, cases: &[String]) -> RunOut {
                     }
                     "info" => {
                         let mut o = vec![Owned { key: key_of(t[2]), owner: Pubkey::default(), lamports: 0, data: vec![], s, w }];
-                        let i = infos_of(&mut o);
+                        // the other fields of the account (executable, lamports, owner, data) are not part of a config: they vary
+                        // with the key and must not influence what is stored
+                        let kb = o[0].key.to_bytes();
+                        o[0].lamports = kb[1] as u64; o[0].data = vec![kb[2]; (kb[3] % 5) as usize]; o[0].owner = Pubkey::new_from_array([kb[4]; 32]);
+                        let executable = kb[0] % 2 == 1;
+                        let i: Vec<AccountInfo> = o.iter_mut().map(|o| AccountInfo::new(&o.key, o.s, o.w, &mut o.lamports, &mut o.data[..], &o.owner, executable)).collect();
                         let by_ref = ExtraAccountMeta::from(&i[0]);
                         *sibling.borrow_mut() = Some((ExtraAccountMeta::from(i[0].clone()), "From<AccountInfo> by value"));
                         Ok(by_ref)
@@ -270,6 +278,27 @@ pub fn run(prop: &str, cases: &[String]) -> RunOut {
                     let (cm, cn) = cpi_s.split_once(" | ").unwrap_or((&cpi_s, ""));
                     if on.is_empty() && cn.is_empty() { format!("OFF {om} CPI {cm}") } else { format!("OFF {om} CPI {cm} | {on},{cn}") }
                 } }
+            }
+            "checkc" => {
+                // checkc <tag> <prog> <ixdata> <infos>: a list of fixed-address configs built FROM the provided account infos themselves
+                // (`ExtraAccountMeta::from(&info)`, by reference or by value), stored with `init`, then validated against those very
+                // accounts: "exactly the configured flags" are the accounts' own, so validation must accept — whatever else the
+                // accounts carry (executable, lamports, owner, data)
+                let tag: usize = t[1].parse().unwrap(); let prog = key_of(t[2]); let ixdata = unhex(t[3]);
+                let mut owned = parse_owned(t[4]);
+                for o in owned.iter_mut() { let kb = o.key.to_bytes(); o.lamports = kb[1] as u64; o.owner = Pubkey::new_from_array([kb[4]; 32]); }
+                let exec: Vec<bool> = owned.iter().map(|o| o.key.to_bytes()[0] % 2 == 1).collect();
+                let infos: Vec<AccountInfo> = owned.iter_mut().zip(exec.iter()).map(|(o, e)| AccountInfo::new(&o.key, o.s, o.w, &mut o.lamports, &mut o.data[..], &o.owner, *e)).collect();
+                let cfgs: Vec<ExtraAccountMeta> = infos.iter().enumerate().map(|(i, inf)| if i % 2 == 0 { ExtraAccountMeta::from(inf) } else { ExtraAccountMeta::from(inf.clone()) }).collect();
+                let mut buf = vec![0u8; ExtraAccountMetaList::size_of(cfgs.len()).unwrap()];
+                let ini = guarded(|| with_tag!(tag, do_init, &mut buf[..], &cfgs));
+                let r = guarded(|| with_tag!(tag, do_check, &infos, &ixdata, &prog, &buf));
+                if !matches!(ini, Some(Ok(()))) { err = Some("init of a list built from account infos failed".into()); }
+                match &r { None => err = Some("check_account_infos panicked".into()), Some(Err(_)) => err = Some("check_account_infos rejected the very accounts the configs were built from".into()), Some(Ok(())) => {} }
+                if !cfgs.is_empty() { out.stats.nontrivial_case(line); }
+                out.stats.bump("checkc");
+                let c = unit_res(&r);
+                format!("init={} check={}", unit_res(&ini).split(" | ").next().unwrap(), c)
             }
             "checkh" => {
                 // checkh <tag> <stored> <new cfgs> <prog> <ixdata> <infos>: an `update` (that fails when the new list does not fit
@@ -680,6 +709,11 @@ pub fn generate_c07(tier: &str, rng: &mut Rng) -> Vec<String> {
             let mut m = accts.clone(); m.push((Pubkey::new_from_array(rng.key()), false, true, vec![1, 2, 3])); v.push(format!("{base} {}", fmt(&m)));
             // shorter than the config list
             let k = rng.below(sc.cfgs.len() as u64 + 1) as usize; let m: Vec<_> = accts.iter().take(k.min(accts.len())).cloned().collect(); v.push(format!("{base} {}", fmt(&m)));
+        }
+        if rng.chance(1, 8) {
+            let k = rng.range(1, 5) as usize;
+            let m: Vec<(Pubkey, bool, bool, Vec<u8>)> = (0..k).map(|_| (Pubkey::new_from_array(rng.key()), rng.chance(1, 2), rng.chance(1, 2), rng.bytes(3))).collect();
+            v.push(format!("checkc {} {} {} {}", sc.tag, hex(&sc.prog), hex(&sc.ixdata), fmt(&m)));
         }
         if rng.chance(1, 3) && !sc.cfgs.is_empty() {
             // a rejected update (one config too many for the exact-size account) must leave the validation as it was; an
